@@ -400,6 +400,19 @@ class Exporter:
         raise Unmodelled(f'FROM item {type(r).__name__}')
 
     def from_list(self, items) -> str:
+        from edb.pgsql import ast as pgast
+
+        def nfuncs(r):
+            if isinstance(r, pgast.RangeFunction):
+                return 1
+            if isinstance(r, pgast.JoinExpr):
+                return nfuncs(r.larg) + sum(nfuncs(j.rarg) for j in r.joins)
+            return 0
+        n = sum(nfuncs(i) for i in (items or []))
+        if n >= 2:
+            # e.g. relctx.unpack_var: one `ROWS FROM (unnest(..) AS (coldefs))` per non-scalar level; an inner
+            # level references the columns the enclosing level defines, so their ORDER in FROM matters
+            self.stats['from:list-with-2+-functions'] += 1
         return '(' + ' '.join(self.from_item(i) for i in (items or [])) + ')'
 
     # -------------------------------------------------------------- queries
@@ -1264,7 +1277,30 @@ class QGen:
                                f'or ({self.bool_expr(T, T, 1)}) ?? false'
         return 'detached', f'select {T} {{ same := (select detached {T} filter .id = {T}.id) {self.shape(T, 0)} }}'
 
-    KINDS = [('q_select', 30), ('q_path', 10), ('q_tuple', 8), ('q_agg', 6), ('q_group', 6),
+    def q_pack(self):
+        """volatile / multiply referenced bindings of nested-tuple or tuple-with-object values: the compiler
+        packs them (array_agg) and unpacks them again (relctx.unpack_var)"""
+        T = self.ch(self.concrete)
+        v, x = self.var(), self.var()
+        e1, _ = self.single_scalar(T, v, 0)
+        e2, _ = self.single_scalar(T, v, 1)
+        k = self.rng.random()
+        if k < 0.3:
+            return 'pack-unpack', f'with {x} := (for {v} in {self.obj_set(T, 1)} union ({e1}, (random(), {e2}))) ' \
+                                  f'select ({x}, {x}.1)'
+        if k < 0.55:
+            return 'pack-unpack', f'with {x} := (for {v} in {T} union (random(), {v} {self.shape(T, 1)})) ' \
+                                  f'select ({x}.0, {x})'
+        if k < 0.8:
+            p1, _ = self.single_scalar(T, '', 0)
+            return 'pack-unpack', f'select {T} {{ pk := (random(), ({self.ch(["1", "true"])}, {p1})) }} ' \
+                                  f'filter .pk.0 > 0.5'
+        p1, _ = self.single_scalar(T, '', 0)
+        p2, _ = self.single_scalar(T, '', 1)
+        return 'pack-unpack', f'with {x} := (select {T} {{ pk := (random(), ({p1}, {p2})) }}) ' \
+                              f'select ({x} {{ pk }}, {x}.pk.1)'
+
+    KINDS = [('q_pack', 8), ('q_select', 30), ('q_path', 10), ('q_tuple', 8), ('q_agg', 6), ('q_group', 6),
              ('q_for', 8), ('q_insert', 12), ('q_update', 8), ('q_delete', 5), ('q_setop', 4),
              ('q_misc', 8)]
 
@@ -1437,6 +1473,30 @@ with u := <int64>$n, v := <str>$s select (global tenant, global region)
 with z := <datetime>$d select Customer { name } filter .tier = (global tenant ?? 0) and .name = <str>$nm
 select (global tenant ?? 0) + <int64>$k; insert AuditLog { what := <str>$w }
 with unused := <int64>$u update Tracked filter .val = (global tenant ?? 0) set { val := <int64>$v }
+'''
+
+
+# pack / unpack of nested-tuple and tuple-with-object values (relctx.unpack_var emits several
+# `ROWS FROM (unnest(..) AS (_tK ..))` functions into one FROM list; the inner ones reference the
+# columns the outer ones define)
+FIXED['issues'] += '''
+with x := (for i in {1,2} union (i, (random(), i))) select (x, x)
+with x := (for u in User union (random(), u { name })) select (x.1.name, x.0, x)
+select User { name, r := (random(), (1, .name)) } filter .r.0 > 0.5
+with x := (for i in Issue union (i.name, (random(), i.owner { name }))) select (x.1.1.name, x)
+with x := (select (1, (random(), 2))) select (x, x)
+with x := (for i in {1,2} union ((a := i, b := (c := random(), d := (e := i, f := 'x'))))) select (x.b.d.f, x, x.b)
+with a := array_agg((for i in {1,2} union (i, (random(), i)))) select (array_unpack(a), array_unpack(a))
+for g in (group Issue using t := (.name, (.body, .time_estimate ?? 0)) by t) union (g.key.t, count(g.elements))
+'''
+FIXED['cards'] += '''
+with x := (for c in Card union ((n := c.name, o := (r := random(), c := c { name, cost })))) select (x.o.c.cost, x, x.o)
+with u := (select User { name, p := (for d in .deck union (d.name, (random(), d.cost))) }) select (u { name, p }, u.p)
+with x := (select User { name, r := random(), d := .deck { name, c := random() } }) select (x { name, r, d: {name, c} }, x.r)
+'''
+FIXED['shop'] += '''
+with x := (for i in Item union (i.price, (datetime_current(), i.dims, random()))) select (x, x.1.1)
+with c := (select Customer { name, t := (random(), (.tier, .name)) }) select (c { name, t }, c.t.1)
 '''
 
 
@@ -1738,6 +1798,7 @@ def statement_record(ir, res, server, codegen, tree_path):
     rec['params_export'] = sorted(set(ex.params))
     rec['stats'] = dict(ex.stats)
     rec['long_names'] = sorted(ex.long_names)
+    rec['names'] = {tok: raw.decode('utf-8', 'replace') for raw, tok in ex.names.items()}
     rec['unexported'] = audit_unexported(res.ast, ex)
     return rec
 
@@ -2012,6 +2073,18 @@ def hand_cases():
     case('function-sees-only-earlier', False,
          SEL([T(None, C('v1', 'v'))], [FUNC(False, [N(C('p1', 'poly'))], 'v1', ['v']), p1]),
          'a function sees preceding FROM items only  [7.2.1.5]')
+    # relctx.unpack_var: one `ROWS FROM (unnest(..) AS (_tK ..))` per non-scalar level of a packed value
+    packed = SUBQ(False, SEL([T('arr', L)]), 'p')
+    u_outer = FUNC(False, [N(C('p', 'arr'))], 'u1', ['_t0', '_t1'])
+    u_inner = FUNC(False, [N(C('_t1'))], 'u2', ['_t2', '_t3'])
+    case('unnest-chain-outer-first', True,
+         SEL([T(None, C('_t0')), T(None, C('_t3'))], [packed, u_outer, u_inner]),
+         'FROM p, ROWS FROM (unnest(p.arr) AS (_t0 int8, _t1 record)) u1, ROWS FROM (unnest(ARRAY[_t1]) AS '
+         '(_t2 float8, _t3 int8)) u2: the column definition list names the columns, the next function may use them')
+    case('unnest-chain-inner-first', False,
+         SEL([T(None, C('_t0')), T(None, C('_t3'))], [packed, u_inner, u_outer]),
+         'the same with the inner unnest BEFORE the one that defines _t1: column "_t1" does not exist '
+         '(a function sees preceding FROM items only) [7.2.1.5]')
     m = REL('s', 'manufacturers', 'm')
     case('left-join-lateral', True,
          SEL([T(None, C('m', 'name'))],
@@ -2911,6 +2984,7 @@ def run(ctx: core.Ctx):
     stats = collections.Counter()
     qlines, qmeta = [], []
     n_det_checked = n_det_diff = 0
+    n_multi_func = 0
     det_classes = collections.Counter()
     det_instances: dict = {}
     n_desc_checked = 0
@@ -3058,6 +3132,8 @@ def run(ctx: core.Ctx):
                 unmodelled_samples.append(dict(q=q['text'][:160], why=a['err']))
             continue
         stats.update(a['stats'])
+        if a['stats'].get('from:list-with-2+-functions'):
+            n_multi_func += 1
         if a['params_export'] != a['params_codegen']:
             ctx.fail(f'exporter-params:{key}', 'exporter and codegen disagree on the parameters printed',
                      base_detail | {'export': a['params_export'], 'codegen': a['params_codegen']},
@@ -3121,11 +3197,14 @@ def run(ctx: core.Ctx):
             if parts[0] == 'ok':
                 n_accept += 1
             else:
+                nm = a.get('names') or {}
+                diag = [re.sub(r'\bn\d+\b', lambda m: '"' + nm.get(m.group(0), m.group(0)) + '"', d)
+                        for d in parts[4:]]
                 ctx.fail(f'scope:{key}',
                          'the verified scope checker rejects the SQL emitted for this query: '
-                         + ' '.join(parts[4:]),
+                         + ' '.join(diag),
                          {'schema': q['schema'], 'text': q['text'], 'kind': q['kind'],
-                          'diagnosis': parts[4:], 'sql_head': a['sql'][:600]})
+                          'diagnosis': diag, 'sql': a['sql'][:4000]})
             if len(samples) < 4 and info % 37 == 0:
                 samples.append(dict(schema=q['schema'], query=q['text'], sql_bytes=len(a['sql']),
                                     argmap=a['argmap'], verdict=o[:80], tree=line[:300]))
@@ -3179,6 +3258,7 @@ def run(ctx: core.Ctx):
         'column_refs_decided_by_catalog_table': unknown_refs,
         'tree_node_histogram': {k: v for k, v in sorted(stats.items()) if not k.startswith('literal-expr-text')},
         'literal_expr_texts': sorted(k[18:] for k in stats if k.startswith('literal-expr-text:'))[:20],
+        'trees_with_2plus_range_functions_in_one_from_list': n_multi_func,
         'mutants_on_real_trees': dict(mut_hist),
         'hand_cases': dict(hand_hist),
         'level1': {'alias_runs': len(alias_cases), 'argmap_cases': len(am_cases),
